@@ -9,7 +9,7 @@ from typing import Dict, List, Optional, Set
 from ..absint import Interp, subst
 from ..model import AnalysisError, dotted, norm, walk_no_nested
 from ..report import rule
-from ..util import allargs, argv, comp_struct, is_const, is_name, key, kw, strip_pre
+from ..util import allargs, argv, comp_struct, is_const, is_name, key, kw, real_params, strip_pre
 
 RT = "client_generators.result_types:ResultTypesGenerator."
 
@@ -19,7 +19,7 @@ RT = "client_generators.result_types:ResultTypesGenerator."
 def c01_r14(ctx):
     repo = ctx.repo
     fi = repo.func(RT + "_get_operation_type_name")
-    p = fi.node.args.args[1].arg
+    p = real_params(fi)[0]
     kinds = ("QUERY", "MUTATION", "SUBSCRIPTION")
 
     def mk(fragment: bool, kind: Optional[str], declared: Set[str]):
@@ -60,7 +60,7 @@ def c01_r14(ctx):
 def c08_r6(ctx):
     repo = ctx.repo
     fi = repo.func(RT + "_parse_mixin_arguments")
-    p = fi.node.args.args[1].arg
+    p = real_params(fi)[0]
     eff = lambda c: is_name(c.func, "<setitem>")
 
     def mk(is_name_node=True, is_string=True, has_from=True, has_import=True):
@@ -104,7 +104,7 @@ def c07_r8(ctx):
     repo = ctx.repo
     ci = repo.cls("client_generators.scalars:ScalarData")
     gon = ci.methods["_get_object_name"]
-    p = gon.node.args.args[1].arg
+    p = real_params(gon)[0]
     for dotted_ in (True, False):
         o = [x for x in Interp(gon, lambda e, d=dotted_: (d if norm(strip_pre(e)) == f"'.' in {p}" else (not d) if norm(strip_pre(e)) == f"'.' not in {p}" else None)).run() if x.kind == "return"]
         vals = sorted({norm(strip_pre(x.deref(x.value)) if isinstance(x.value, ast.Name) else strip_pre(x.value)) for x in o})
@@ -611,3 +611,48 @@ def c14_r12(ctx):
     outs = [o for o in Interp(asm, lambda e: None).run() if o.kind == "return"]
     ctx.check(bool(outs) and all(norm(strip_pre(o.value)) == "generate_arguments(args=[cls_arg, *args], kwonlyargs=kw_only_args, kw_defaults=kw_defaults)" for o in outs), key(asm, "signature"),
               f"the signature must be (cls, *required, *, optional=None...): {[o.text()[:120] for o in outs]}", asm.loc(), okmsg="signature = cls + required, keyword-only optional with defaults")
+
+
+EMITTED_CLIENT_METHODS = {
+    "_generate_method": """def _H_name(_H_arguments):
+    _H_variable_names_query = gql(LINES)
+    _H_variable_names_variables = _H_arguments_dict
+    _H_variable_names_response = self.execute(query=_H_variable_names_query, operation_name=_C_operation_name, variables=_H_variable_names_variables, **kwargs)
+    _H_variable_names_data = self.get_data(_H_variable_names_response)
+    return _H_return_type.model_validate(_H_variable_names_data)""",
+    "_generate_async_method": """async def _H_name(_H_arguments):
+    _H_variable_names_query = gql(LINES)
+    _H_variable_names_variables = _H_arguments_dict
+    _H_variable_names_response = await self.execute(query=_H_variable_names_query, operation_name=_C_operation_name, variables=_H_variable_names_variables, **kwargs)
+    _H_variable_names_data = self.get_data(_H_variable_names_response)
+    return _H_return_type.model_validate(_H_variable_names_data)""",
+    "_generate_subscription_method_def": """async def _H_name(_H_arguments):
+    _H_variable_names_query = gql(LINES)
+    _H_variable_names_variables = _H_arguments_dict
+    async for _H_variable_names_data in self.execute_ws(query=_H_variable_names_query, operation_name=_C_operation_name, variables=_H_variable_names_variables, **kwargs):
+        yield _H_return_type.model_validate(_H_variable_names_data)""",
+}
+
+
+@rule("C12.R4", "every generated client method is: bind the document and the variables, execute, get_data, model_validate - on the (renamed) locals, in that order, nothing else",
+      min_instances=3, also=["C02", "C03", "C13", "C01"])
+def c12_r4(ctx):
+    import re
+    from ..shape import Shaper, renders
+    repo = ctx.repo
+    sh = Shaper(repo)
+    for fn, want in EMITTED_CLIENT_METHODS.items():
+        fi = repo.func("client_generators.client:ClientGenerator." + fn)
+        got = [re.sub(r"gql\([^\n]*\)$", "gql(LINES)", r, count=1, flags=re.M) for r in renders(sh.call_function(fi))]
+        want_n = ast.unparse(ast.parse(want))
+        diff = ""
+        if got != [want_n] and len(got) == 1:
+            for a, b in zip(got[0].splitlines(), want_n.splitlines()):
+                if a != b:
+                    diff = f"first difference: emitted `{a.strip()[:150]}` / specified `{b.strip()[:150]}`"
+                    break
+            else:
+                diff = f"emitted {len(got[0].splitlines())} statements, specified {len(want_n.splitlines())}"
+        ctx.check(got == [want_n], key(fi, "emitted method"), f"{fi.qualname} does not emit the specified method body; {diff or got[:1]}. (`_H_x` = the generator's parameter x, `_H_variable_names_k` = the "
+                  "local that get_variable_names renamed for k; the validated model must be built from what get_data returned for the response of this very call)", fi.loc(),
+                  okmsg=f"{fi.qualname}: emitted body as specified")
